@@ -28,6 +28,7 @@ SPELLINGS = {
     # (None next to collection values is avoided here: the dependency ignores `None` when a whole-mapping
     #  assignment replaces a nested collection - reported separately as a C04 finding by a scripted scenario)
 }
+SPELLINGS["nullish"] = ({"a": ("a",), "b": ("opt",)}, {"i0": None, "i1": 0})     # JSON null as a value (scalars only)
 SPELLINGS["wide"] = ({"a": ("a",), "b": ("n", "x"), "c": ("c",), "d": ("Ünï",)}, {"i0": 0, "i1": "x", "i2": [1, 2.5, {"k": None}]})
 DOCS = {"d0": {}, "d1": {"x": 1}, "d2": {"x": 2.5, "n": {"y": [1, "two", None]}}}
 FILES = {"f1": "data.txt", "f2": os.path.join("sub", "inner.bin")}
@@ -325,6 +326,8 @@ class World:
             elif op == "restart":
                 self.proj = {p: self.signac.Project(r) for p, r in self.roots.items()}
                 self.h = {}
+            elif op == "mkdir_empty":
+                os.makedirs(self.jobdir(a[0], a[1]))
             elif op == "stray":
                 os.mkdir(os.path.join(self.roots[a[0]], "workspace", STRAY_NAME[a[1]](self.stray_base)))
             elif op == "corrupt":
